@@ -1361,6 +1361,14 @@ int32_t pstm_div_2d(psPool_t *pool, const pstm_int *a, int16_t b, pstm_int *c,
         }
         return PSTM_OKAY;
     }
+    /* set the remainder before c is written: c may alias a */
+    if (d != NULL && d != a)
+    {
+        if (pstm_mod_2d(a, b, d) != PSTM_OKAY)
+        {
+            return PS_MEM_FAIL;
+        }
+    }
     /* copy */
     if (pstm_copy(a, c) != PSTM_OKAY)
     {
@@ -1408,8 +1416,8 @@ int32_t pstm_div_2d(psPool_t *pool, const pstm_int *a, int16_t b, pstm_int *c,
 
     res = PSTM_OKAY;
 LBL_DONE:
-    /* set the remainder */
-    if (d != NULL)
+    /* set the remainder (d aliases a: a is still intact unless c does too) */
+    if (d != NULL && d == a)
     {
         if (pstm_mod_2d(a, b, d) != PSTM_OKAY)
         {
